@@ -132,6 +132,19 @@ theorem none_accepted_after (cap : Nat) (w : Bool) (ops : List ServerStop.Op) (c
     exact this ops _ (Lemmas.ServerStop.init_closed cap w)
   exact Lemmas.ServerStop.start_after_stop _ c r hc hp
 
+/-- GracefulStop puts every connection into the draining state (its final GOAWAY is written). -/
+theorem gracefulStop_drains_every_connection (s : ServerStop.St) (hp : s.phase = .serving) :
+    ∀ x ∈ (ServerStop.apply s .gstop).conns, x.draining = true :=
+  Lemmas.ServerStop.gstop_drains s hp
+
+/-- No RPC is accepted after the final GOAWAY even from a peer that ignores it (or whose HEADERS cross
+    it on the wire): a stream opened on a draining connection never gets a handler — whatever runs
+    afterwards ran before, or is the one stream that was already parked in the handler quota. -/
+theorem final_goaway_never_dispatches (s : ServerStop.St) (c r : Nat) (conn : ServerStop.Conn)
+    (hg : ServerStop.getConn s c = some conn) (hd : conn.draining = true) :
+    ∀ x ∈ (ServerStop.apply s (.rawstart c r)).run, x ∈ s.run ∨ conn.blocked = some x.1 :=
+  Lemmas.ServerStop.rawstart_draining s c r conn hg hd
+
 /-- Stop cancels every handler's context and every unfinished RPC ends non-OK at its client:
     after Stop every RPC that was ever sent has a cancelled context and a result, and a result
     is OK only if the client already had it before Stop. -/
@@ -153,5 +166,10 @@ example : (runOps (init 1 false) [.dial 1, .start 1 1, .cancel 1, .start 1 2]).r
 open ServerStop in
 example : (runOps (init 2 false) [.dial 1, .start 1 1, .gstop, .start 1 2, .finish 1 5]).returned = true ∧
     ((runOps (init 2 false) [.dial 1, .start 1 1, .gstop, .start 1 2, .finish 1 5]).rpcs.map (·.cli)) = [some 5, some 14] := by decide
+
+open ServerStop in
+example : (runOps (init 1 false) [.rawdial 1, .rawstart 1 1, .gstop, .rawstart 1 2]).run = [(1, 1)] ∧
+    (runOps (init 1 false) [.rawdial 1, .rawstart 1 1, .gstop, .rawstart 1 2, .finish 1 0]).returned = true ∧
+    (runOps (init 1 false) [.rawdial 1, .rawstart 1 1, .gstop, .rawstart 1 2, .finish 1 0]).run = [] := by decide
 
 end GrpcProofs.C25
